@@ -39,7 +39,7 @@ type Profile struct {
 	ScalarBias int // percent chance that a value below the root is a scalar (default 45)
 }
 
-var HostileKeys = []string{"a", "b", "c", "d", "", "a/b", "m~n", "~", "/", "0", "1", "-1", "01", "x<y", "k&v", " ", "é", "😀", `q"r`, `b\s`, "\n", "-"}
+var HostileKeys = []string{"a", "b", "c", "d", "", "a/b", "m~n", "~", "/", "~1", "~0", "0", "1", "-1", "01", "x<y", "k&v", " ", "é", "😀", `q"r`, `b\s`, "\n", "-"}
 var PlainKeys = []string{"a", "b", "c", "d", "e", "f", "k", "0", "1", "zz"}
 var MergeKeys = []string{"a", "b", "c", "d", "x<y", ""}
 
@@ -383,7 +383,7 @@ func Pointers(v *jr.Value) (res, miss []string) {
 			for i, k := range x.Keys {
 				walk(x.Vals[i], prefix+"/"+jr.EncTok(k))
 			}
-			miss = append(miss, prefix+"/zz", prefix+"/0", prefix+"/-", prefix+"/n~0w", prefix+"/n~1w")
+			miss = append(miss, prefix+"/zz", prefix+"/0", prefix+"/-", prefix+"/n~0w", prefix+"/n~1w", prefix+"/~01", prefix+"/~10")
 		case jr.Arr:
 			n := len(x.A)
 			for i, e := range x.A {
